@@ -44,10 +44,13 @@ func runC10(ctx *Ctx) {
 			}
 		}
 	}
+	// (step 7 marks a RETRANSMITTED message with a new-context header: TS 24.501 4.4.3.1 gives every retransmission a new
+	// COUNT, so it arrives with header type 3/4 and the COUNT after the previous message's, not 0)
+	ops = append(ops, c10op{1, 3, 7}, c10op{1, 4, 7})
 	ops = append(ops, c10op{1, 3, 1}, c10op{2, 4, 1}, c10op{0, 0, 0}, c10op{3, 2, 1}, c10op{4, 2, 1}, c10op{5, 2, 1}, c10op{5, 1, 255})
 	// long downlink messages (DL NAS TRANSPORT with a payload container of n octets): histories of one and three messages only
 	shortOps := len(ops)
-	for _, n := range []int{245, 249, 250, 251, 300, 1015, 1019, 1100, 4000} {
+	for _, n := range []int{245, 249, 250, 251, 300, 1015, 1019, 1100, 4000, 16373, 16379, 20000} {
 		m := append([]byte{0x7e, 0x00, 0x68, 0x01, byte(n >> 8), byte(n)}, pattern(2, n)...)
 		msgs = append(msgs, m)
 		for _, h := range []uint8{1, 2} {
@@ -193,6 +196,11 @@ func c10history(r *report.Report, l *report.Local, msgs [][]byte, ops []c10op, a
 		use := amfCount
 		if op.h != 0 {
 			switch {
+			case op.h >= 3 && op.step == 7:
+				use = (amfCount + 1) & 0xff // the retransmission of the message that took the new context into use: next COUNT, overflow 0
+				if first || amfCount > 0xff {
+					use = 0 // (only meaningful right after such a message; otherwise it is an ordinary new-context message)
+				}
 			case op.h >= 3:
 				use = 0
 			case first && start == 0 && op.step == 1:
